@@ -68,20 +68,20 @@ def pElem (dateP : List Char → Option Nat) (fuel : Nat) (s : List Char) : Res 
 
 /-- `public_key` / `scope` -/
 def pScope (s : List Char) : Option (SScope × List Char) :=
-  match tag "authority".toList s with
+  match tag ['a', 'u', 't', 'h', 'o', 'r', 'i', 't', 'y'] s with
   | some r => some (.authority, r)
   | none =>
-    match tag "previous".toList s with
+    match tag ['p', 'r', 'e', 'v', 'i', 'o', 'u', 's'] s with
     | some r => some (.previous, r)
     | none =>
       let key (pre : List Char) : Option (SScope × List Char) :=
         match tag pre s with
         | some r => (pHexT r).map fun (b, r') => (SScope.key (String.ofList (pre ++ hexEncode b)), r')
         | none => none
-      match key "ed25519/".toList with
+      match key ['e', 'd', '2', '5', '5', '1', '9', '/'] with
       | some x => some x
       | none =>
-        match key "secp256r1/".toList with
+        match key ['s', 'e', 'c', 'p', '2', '5', '6', 'r', '1', '/'] with
         | some x => some x
         | none =>
           match s with
@@ -107,7 +107,7 @@ def pScopeTail : Nat → List Char → Res (List SScope)
 
 /-- `scopes` -/
 def pScopes (fuel : Nat) (s : List Char) : Res (List SScope) :=
-  match tag "trusting".toList (space0 s) with
+  match tag ['t', 'r', 'u', 's', 't', 'i', 'n', 'g'] (space0 s) with
   | none => .ok [] s
   | some r =>
     match pScope (space0 r) with
@@ -197,13 +197,13 @@ def tagNoCase (t : List Char) (s : List Char) : Option (List Char) :=
 def pCheckInner (dateP : List Char → Option Nat) (fuel : Nat) (s : List Char) : Res (CKind × List Body) :=
   let s := space0 s
   let kind : Option (CKind × List Char) :=
-    match tagNoCase "check if".toList s with
+    match tagNoCase ['c', 'h', 'e', 'c', 'k', ' ', 'i', 'f'] s with
     | some r => some (.one, r)
     | none =>
-      match tagNoCase "check all".toList s with
+      match tagNoCase ['c', 'h', 'e', 'c', 'k', ' ', 'a', 'l', 'l'] s with
       | some r => some (.all, r)
       | none =>
-        match tagNoCase "reject if".toList s with
+        match tagNoCase ['r', 'e', 'j', 'e', 'c', 't', ' ', 'i', 'f'] s with
         | some r => some (.reject, r)
         | none => none
   match kind with
@@ -217,10 +217,10 @@ def pCheckInner (dateP : List Char → Option Nat) (fuel : Nat) (s : List Char) 
 def pPolicyInner (dateP : List Char → Option Nat) (fuel : Nat) (s : List Char) : Res (PKind × List Body) :=
   let s := space0 s
   let kind : Option (PKind × List Char) :=
-    match tagNoCase "allow if".toList s with
+    match tagNoCase ['a', 'l', 'l', 'o', 'w', ' ', 'i', 'f'] s with
     | some r => some (.allow, r)
     | none =>
-      match tagNoCase "deny if".toList s with
+      match tagNoCase ['d', 'e', 'n', 'y', ' ', 'i', 'f'] s with
       | some r => some (.deny, r)
       | none => none
   match kind with
